@@ -135,6 +135,8 @@ fn run_client(addr: SocketAddr, plan: ClientPlan, rng_seed: u64, barrier_reached
     let closing = Arc::new(AtomicBool::new(false));
     let closing2 = closing.clone();
     let (w2, sr2, sh2) = (writer.clone(), stop_reader.clone(), shared.clone());
+    let reader_end = Arc::new(Mutex::new(String::new()));
+    let end2 = reader_end.clone();
     let mut rc = c;
     let reader = std::thread::spawn(move || {
         loop {
@@ -169,6 +171,7 @@ fn run_client(addr: SocketAddr, plan: ClientPlan, rng_seed: u64, barrier_reached
                 if !rc.buf.is_empty() && rc.eof {
                     sh2.lock().unwrap().2.push(format!("{} undecodable trailing bytes: {:?}", rc.buf.len(), show(&rc.buf, 24)));
                 }
+                *end2.lock().unwrap() = format!("reader ended with eof={} reset={} {} bytes undecoded", rc.eof, rc.reset, rc.buf.len());
                 return;
             }
             rc.fill(Duration::from_millis(10));
@@ -282,6 +285,9 @@ fn run_client(addr: SocketAddr, plan: ClientPlan, rng_seed: u64, barrier_reached
         barrier_reached.store(true, Ordering::SeqCst);
     }
     reader.join().ok();
+    if !res.close_wait.is_empty() {
+        res.close_wait = format!("{}; {}", res.close_wait, reader_end.lock().unwrap());
+    }
     let g = shared.lock().unwrap();
     res.texts = g.0.clone();
     res.pongs = g.1.clone();
